@@ -1124,8 +1124,8 @@ class Canonicalizer:
                 return all(literal(x) for x in v.elts)
             if isinstance(v, ast.Dict):
                 return all(k is not None and literal(k) for k in v.keys) and all(literal(x) for x in v.values)
-            if isinstance(v, ast.Attribute) and isinstance(v.value, ast.Name) and v.value.id == "Op":
-                return True
+            if isinstance(v, ast.Attribute) and isinstance(v.value, ast.Name) and (v.value.id == "Op" or (v.value.id[:1].isupper() and v.value.id in mod.imports)):
+                return True       # a member of an imported enum-like class (Op.ADDED, MatchField.community)
             return False
 
         def table(v, top=True) -> bool:
